@@ -42,6 +42,7 @@ type E struct {
 	known       []string
 	start       time.Time
 	checksRun   map[string]int64
+	domains     []*Domain
 }
 
 var cur *E
@@ -107,6 +108,44 @@ func (e *E) NonTrivial(key string) {
 	e.mu.Lock()
 	e.distinct[h.Sum64()] = struct{}{}
 	e.mu.Unlock()
+}
+
+// Domain is a bitmap over an enumerated finite domain; the number of distinct
+// points visited is measured by counting set bits.
+type Domain struct {
+	name string
+	bits []uint64
+	size int
+}
+
+// Domain registers (or returns) the bitmap for an enumerated domain of the
+// given size.
+func (e *E) Domain(name string, size int) *Domain {
+	e.mu.Lock()
+	defer e.mu.Unlock()
+	for _, d := range e.domains {
+		if d.name == name {
+			return d
+		}
+	}
+	d := &Domain{name: name, size: size, bits: make([]uint64, (size+63)/64)}
+	e.domains = append(e.domains, d)
+	return d
+}
+
+// Visit marks point i of the domain as explored and counts one evaluation.
+func (d *Domain) Visit(i int) {
+	d.bits[i/64] |= 1 << (uint(i) % 64)
+}
+
+func (d *Domain) count() int {
+	n := 0
+	for _, w := range d.bits {
+		for ; w != 0; w &= w - 1 {
+			n++
+		}
+	}
+	return n
 }
 
 // Label increments a histogram bucket.
@@ -333,6 +372,17 @@ func (e *E) Write() {
 		"samples":             e.samples,
 		"labels":              e.labels,
 		"cases_per_check":     e.checksRun,
+	}
+	if len(e.domains) > 0 {
+		dm := map[string]any{}
+		total := len(e.distinct)
+		for _, d := range e.domains {
+			c := d.count()
+			dm[d.name] = map[string]int{"size": d.size, "visited": c}
+			total += c
+		}
+		cov["domains"] = dm
+		cov["distinct_nontrivial"] = total
 	}
 	if len(e.samples) == 0 {
 		cov["samples"] = []any{}
